@@ -48,7 +48,12 @@ CHECKS = {
              "sub-commands, which write refs outside any transaction, are killed just before and just after every "
              "git invocation (no stack may be stranded under a branch that does not exist)."),
     "C05": dict(category="proof", design_ref="DESIGN.md section 4/C05", note=HIST_NOTE, technique=HIST_TECH,
-        text="Theorems over the abstract log: undo -n k = k-th state of the effective timeline, = k single undos; "
+        text="Whole-command theorems: `stg undo` on a stack whose newest entry is an ordinary operation restores the state "
+             "recorded by the entry before it (three lists, every patch's commit, head, branch) and appends to the log; "
+             "`stg redo` after it brings back exactly the state the undo took away; for every modelled stg command other "
+             "than undo / redo that succeeds and records one entry, a following undo restores the stack it found "
+             "(C05_undo_restores_logged_state, _redo_restores_undone_state, _undo_undoes_step, non-vacuity witness). "
+             "Theorems over the abstract log: undo -n k = k-th state of the effective timeline, = k single undos; "
              "redo -n k = k-th entry of the redo stack, refused after any other operation; find_undo_state over the "
              "object store IS that walk; reset_to_state installs exactly the logged state. Direct oracle with its own "
              "reading of the log for undo / redo and for `stg reset <entry> [<patches>]` (a full reset restores the "
@@ -131,7 +136,11 @@ CHECKS = {
              "other publication path (log_external_mods on a branch moved by plain git) is raced separately: one "
              "process held between reading and publishing the state ref while another completes (direct oracle)."),
     "C12": dict(category="proof", design_ref="DESIGN.md section 4/C12", note=HIST_NOTE, technique=HIST_TECH,
-        text="Theorems: committing bottom-most patches creates no object and keeps the head; uncommit never moves "
+        text="Whole-command round trip C12_commit_uncommit_roundtrip: `stg commit -n k` then `stg uncommit <the same k "
+             "names>` gives back the same commits under the same names in the same order, the same unapplied and hidden "
+             "patches, branch / index / work tree untouched (generator macro commit_roundtrip and a direct oracle clause "
+             "read the same off the real repository). "
+             "Theorems: committing bottom-most patches creates no object and keeps the head; uncommit never moves "
              "branch, index or work tree and creates no commit; the downward walk refuses merge/root commits and finds "
              "exactly the commits committed before; source tie: uncommit runs with set_head(false), "
              "use_index_and_worktree(false)."),
